@@ -17,7 +17,9 @@ MANIFEST = dict(
          "with the consumer's steps at lock granularity, any clock ticks): FIFO (get results are a sub-sequence of the put "
          "order), never-early, partition puts = got + removed + queued (nothing lost, nothing twice, removed never returned), "
          "close() unblocks / no lost wake-up. The LTS is tied to /repo by replaying real scheduler traces of the real "
-         "DelayedQueue through the extracted model in lock-step on every run.",
+         "DelayedQueue through the extracted model in lock-step on every run; the runs also schedule right after every "
+         "lock release (what a call does between its critical section and its return can be overtaken), and the times "
+         "judged by the oracle and compared with the model are those of the calls' critical sections.",
     note="Trusted: Coq kernel; CPython lock/condition semantics as implemented by the scheduler twins; steps are cut at "
          "lock acquisitions, Condition.wait and sleeps (code between two such points is atomic in model and harness); one "
          "consumer thread; element identities unique. Interpretation (DESIGN.md): after close() elements still queued are "
@@ -30,9 +32,9 @@ ASSUMPTIONS = ["one consumer thread; producers/removers/closers unrestricted; el
 
 def oracle(prog, s, left):
     """Evaluate the property text on the real run. Returns list of (law, detail)."""
-    from harness.dqprog import DELAY_UNITS
+    from harness.dqprog import DELAY_UNITS, section_events
     bad = []
-    ev = s.events
+    ev = section_events(s)      # same entries, same order (= order in which the calls returned); times = time of the section
     puts = [(e[2], e[3], e[4]) for e in ev if e[1] == "put"]
     put_order = [p[0] for p in puts]
     tput = {p[0]: p[2] for p in puts}
@@ -94,7 +96,7 @@ def record(prog, s, left, res: Result, cases, metas):
     choices = [c for _, c in s.choices]
     meta = {"program": prog, "schedule": choices}
     res.evaluations += 1
-    ev = s.events
+    ev = dqprog.section_events(s)
     nrem = sum(1 for e in ev if e[1] == "removed" and e[2] is not None)
     ncl = sum(1 for e in ev if e[1] == "closed")
     ngot = sum(1 for e in ev if e[1] == "got" and e[2] is not None)
@@ -172,6 +174,22 @@ def run(ctx) -> Result:
     for c in ctx.corpus():
         if "schedule" in c:
             one(c["program"], ("replay", c["schedule"]), res, cases, metas)
+    # the hand-written programs: every schedule with at most one pre-emption (two in the thorough tier), including the
+    # pre-emption right after a lock release (e.g. between close()'s wake-up and its return)
+    nexp = 0
+    for prog in CORPUS:
+        seen = []
+
+        def once_c(ch, prog=prog, seen=seen):
+            s, left = dqprog.run_dq_program(prog, ch)
+            seen.append((s, left))
+            return s
+        for s in ds.explore(once_c, preemption_bound=2 if ctx.thorough else 1, max_runs=600 if ctx.thorough else 80):
+            pass
+        nexp += len(seen)
+        for s, left in seen:
+            record(prog, s, left, res, cases, metas)
+    res.notes.append(f"hand-written programs: {nexp} schedules with <= {2 if ctx.thorough else 1} pre-emption(s) enumerated")
     n = 500 if not ctx.thorough else 4000
     for k in range(n):
         prog = dqprog.gen_dq_program(rng)
